@@ -134,6 +134,10 @@ def run(ctx):
         else:
             ctx.violation("C04.R4", "C04.R4/unsorted-accepted/" + f.key, "add_record no longer rejects out-of-order records", f.loc())
 
+    ctx.rule("C04.R6", "A7 sibling agreement: reg2bin (indexer) and reg2bins (query) use the same coordinate convention")
+    from .c17 import binning_convention_rule
+    binning_convention_rule(ctx, "C04.R6")
+
     ctx.rule("C04.R5", "binned index min_offset is a minimum over several bins (ancestor bins hold earlier, longer records)")
     key = ("noodles_csi::binning_index::index::reference_sequence::index::binned_index::<impl noodles_csi::binning_index::index::"
            "reference_sequence::index::Index for indexmap::map::IndexMap<usize, noodles_bgzf::virtual_position::VirtualPosition>>::min_offset")
